@@ -35,6 +35,12 @@ macro_rules! registries {
         fn replay_deser_reg(case: &vcore::deser::DeserReplay) -> Option<Option<String>> {
             match case.registry.as_str() { $($name => Some($krate::replay_deser(case)),)* _ => None }
         }
+        fn run_fault_reg(reg: &str, cfg: &Config, known: &[String]) -> vcore::fault::FaultReport {
+            match reg { $($name => $krate::run_fault(cfg, known),)* _ => panic!("unknown registry {reg}") }
+        }
+        fn replay_fault_reg(case: &vcore::fault::FaultReplay) -> Option<Option<String>> {
+            match case.registry.as_str() { $($name => Some($krate::replay_fault(case)),)* _ => None }
+        }
     };
 }
 registries! {
@@ -172,6 +178,68 @@ fn main() {
             let report = serde_json::json!({"property": "C11", "tier": tier, "seed": seed, "evaluations": evaluations, "distinct_nontrivial": nontrivial, "classes": classes, "registries": per_reg, "samples": samples, "failure": failure, "wall_s": t0.elapsed().as_secs_f64()});
             std::fs::write(&out, serde_json::to_string_pretty(&report).unwrap()).expect("write report");
             std::process::exit(if failure.is_some() { 1 } else { 0 });
+        }
+        Some("fault") => {
+            let tier = arg(&args, "--tier").unwrap_or_else(|| "quick".into());
+            let thorough = tier == "thorough";
+            let seed: u64 = arg(&args, "--seed").and_then(|s| s.parse().ok()).unwrap_or(0);
+            let out = arg(&args, "--out").expect("--out");
+            let workers: usize = arg(&args, "--workers").and_then(|s| s.parse().ok()).unwrap_or(16);
+            let cases: u32 = arg(&args, "--cases").and_then(|s| s.parse().ok()).unwrap_or(100);
+            let regs = arg(&args, "--regs").unwrap_or_else(|| "r6,r10,r1".into());
+            let known: Vec<String> = arg(&args, "--known").map(|s| s.split(',').filter(|x| !x.is_empty()).map(|x| x.to_string()).collect()).unwrap_or_default();
+            vcore::crash::install(&format!("{out}.crash.json"));
+            let share: BTreeMap<&str, f64> = [("r6", 1.0), ("r10", 0.3), ("r8", 0.3), ("r1", 0.1)].into_iter().collect();
+            let t0 = std::time::Instant::now();
+            let mut reports = Vec::new();
+            for reg in regs.split(',') {
+                let cfg = Config { prop: "C17".into(), thorough, seed, workers, cases_per_worker: ((cases as f64 * share.get(reg).copied().unwrap_or(0.2)).ceil() as u32).max(1), excl: Exclusions::default(), pool_digest: digest(reg).to_string(), mute: false };
+                let r = run_fault_reg(reg, &cfg, &known);
+                let stop = r.failure.is_some();
+                reports.push(r);
+                if stop {
+                    break;
+                }
+            }
+            let mut classes: BTreeMap<String, u64> = BTreeMap::new();
+            let mut excluded: BTreeMap<String, u64> = BTreeMap::new();
+            let (mut cases_run, mut injections, mut fired, mut nontrivial) = (0u64, 0u64, 0u64, 0u64);
+            let mut samples = Vec::new();
+            let mut failure = None;
+            for r in &reports {
+                cases_run += r.cases;
+                injections += r.injections;
+                fired += r.fired;
+                nontrivial += r.nontrivial.len() as u64;
+                for (k, v) in &r.classes {
+                    *classes.entry(k.clone()).or_insert(0) += v;
+                }
+                for (k, v) in &r.excluded {
+                    *excluded.entry(k.clone()).or_insert(0) += v;
+                }
+                samples.extend(r.samples.iter().take(1).cloned());
+                if failure.is_none() {
+                    failure = r.failure.clone();
+                }
+            }
+            let report = serde_json::json!({"property": "C17", "tier": tier, "seed": seed, "cases": cases_run, "injections": injections, "fired": fired, "distinct_nontrivial": nontrivial, "classes": classes, "excluded_by_construction": excluded, "samples": samples, "failure": failure, "wall_s": t0.elapsed().as_secs_f64()});
+            std::fs::write(&out, serde_json::to_string_pretty(&report).unwrap()).expect("write report");
+            std::process::exit(if failure.is_some() { 1 } else { 0 });
+        }
+        Some("replay-fault") => {
+            let path = args.get(2).expect("file");
+            let case: vcore::fault::FaultReplay = serde_json::from_str(&std::fs::read_to_string(path).expect("read")).expect("parse replay file");
+            let Some(out) = replay_fault_reg(&case) else { std::process::exit(2) };
+            match out {
+                Some(m) => {
+                    println!("REPRODUCED property=C17 {}", m);
+                    std::process::exit(1);
+                }
+                None => {
+                    println!("not reproduced");
+                    std::process::exit(0);
+                }
+            }
         }
         Some("replay-deser") => {
             let path = args.get(2).expect("file");
